@@ -149,8 +149,11 @@ CHECK_DEADLOCK FALSE
                 prog.append({"op": rng.choice(["_header", "_parameter", "_hostheader"]), "arg": None})
                 # (values may contain the separator again: only the first ": " / "=" splits name and value)
                 hv = rng.choice([b"v%d" % len(prog), b"default-src 'self'; img-src data: https:", b"a: b: c", b": "])
-                pv = rng.choice([b"v", b"a=b", b"=", b"x==y"])
-                prog[-1]["arg"] = L({"_header": b"X-S%d: " % len(prog) + hv, "_parameter": b"s%d=" % len(prog) + pv, "_hostheader": rng.choice([b"Host: h.example", b"Host: h.example: 8080"])}[prog[-1]["op"]])
+                # (... and percent signs: decorations are placed verbatim, nothing is decoded or encoded on the way)
+                pv = rng.choice([b"v", b"a=b", b"=", b"x==y", b"http%3A%2F%2Fwww.example.com", b"100%", b"%zz", b"a+b c", b"%41"])
+                pk = rng.choice([b"s%d" % len(prog), b"s%d" % len(prog), b"%%73%d" % len(prog), b"k%%3D%d" % len(prog)])
+                hv = rng.choice([hv, hv, b"a%20b", b"%0d%0a"])
+                prog[-1]["arg"] = L({"_header": b"X-S%d: " % len(prog) + hv, "_parameter": pk + b"=" + pv, "_hostheader": rng.choice([b"Host: h.example", b"Host: h.example: 8080"])}[prog[-1]["op"]])
             prog.append({"op": "build", "arg": kind})
             needs_text = term in ("header", "parameter", "uri_append")
             encs = []
